@@ -33,7 +33,7 @@ def plan(tier):
 def floors(tier):
     c = {"cuts_before_first_value": 60, "cuts_compared": 400, "spy_records_compared": 5000, "frames_compared": 2000, "fi_cuts_compared": 200}
     for a in WINDOWED:
-        c["algo_" + a] = 8 if a in ("PTE_Rebalance", "UpdateRisk", "HedgeRisks") else 20
+        c["algo_" + a] = 5 if a in ("PTE_Rebalance", "UpdateRisk", "HedgeRisks") else 10
     return {"min_decided": 150, "counters": c, "max_undecided_frac": 0.3}
 
 
@@ -169,7 +169,7 @@ def run_case(unit, cs, idx, build, params):
         return run_w5(cs, params)
     ins.install()
     ins.reset()
-    spec = w2.gen(cs, risk=0.15, fills=0.3, nan_gaps=0.5)
+    spec = w2.gen(cs, risk=0.15, fills=0.3, nan_gaps=0.5, high_prices=0.3)
     sig = w2.signature(spec)
     sample = w2.sample_of(spec)
     ctx0 = ObsCtx()
